@@ -185,9 +185,16 @@ theorem empty_match_error (fuel : Nat) (file : Str) (upper : List (Str × Nat)) 
 
 /-- **A missing file is an error located at that file (line 0) with its chain.** -/
 theorem missing_file_error (fuel : Nat) (f : Str) (upper : List (Str × Nat))
-    (h : fs.read (normPath f) = none) :
+    (h : fs.read (normPath f) = none) (hd : fs.isDir (normPath f) = false) :
     parseFile cfg fs (fuel + 1) f upper = .error (.notFound f upper) := by
-  rw [parseFile_succ]; simp only [h]
+  rw [parseFile_succ]; simp only [h, missingKind, hd]; rfl
+
+/-- **So is a path that exists but cannot be read as a text file** (a directory matched by the
+pattern): a located error, not a crash (the pinned tree panicked here, D27). -/
+theorem directory_error (fuel : Nat) (f : Str) (upper : List (Str × Nat))
+    (h : fs.read (normPath f) = none) (hd : fs.isDir (normPath f) = true) :
+    parseFile cfg fs (fuel + 1) f upper = .error (.unreadable f upper) := by
+  rw [parseFile_succ]; simp only [h, missingKind, hd]; rfl
 
 /-- **A parse error is reported with the file it occurred in and that file's chain** … -/
 theorem parse_error_located (fuel : Nat) (f : Str) (upper : List (Str × Nat)) (script : Str)
